@@ -38,11 +38,9 @@ Explains(r) ==
         e == EventOfLine(r)
         x == Redact(a, e)
         gotcon == ToSet(r.got.con)
-        \* the specification is silent on an emptied third_party_invite: {} may stay
-        slack == IF NestedUnspecified(a, e) /\ ToSet(r.got.tpi) = {} /\ r.got.tpiobj THEN {NestedKey} ELSE {}
     IN /\ r.ver \in AllVersions
        /\ ToSet(r.got.top) = DOMAIN x.top
-       /\ gotcon \ slack = DOMAIN x.con
+       /\ gotcon = DOMAIN x.con
        /\ (NestedKey \in DOMAIN x.con => /\ r.got.tpiobj = x.tpi.obj
                                          /\ ToSet(r.got.tpi) = DOMAIN x.tpi.keys)
 
@@ -64,5 +62,5 @@ EmitExpected ==
     l <= Len(Trace) =>
         LET r == Trace[l]  a == RedactionAlgo(r.ver)  e == EventOfLine(r)  x == Redact(a, e) IN
         PrintT(ToJson([line |-> l, algo |-> a, ktop |-> DOMAIN x.top, kcon |-> DOMAIN x.con,
-                       ktpi |-> DOMAIN x.tpi.keys, free |-> NestedUnspecified(a, e)]))
+                       ktpi |-> DOMAIN x.tpi.keys]))
 =============================================================================
